@@ -243,6 +243,8 @@ impl GraphEngine {
             created_external_ids: std::collections::HashSet::new(),
             max_created_external_id: 0,
             memtable: MemTable::default(),
+            sealed: MemTable::default(),
+            mark: StatementMark::default(),
         }
     }
 
@@ -823,7 +825,21 @@ pub struct WriteTxn<'a> {
     created_external_ids: std::collections::HashSet<ExternalId>,
     /// Largest external id created in this transaction (0 if none).
     max_created_external_id: ExternalId,
+    /// Writes since the last statement boundary (the statement in progress).
     memtable: MemTable,
+    /// Writes of the statements completed earlier in this transaction.
+    sealed: MemTable,
+    /// Node bookkeeping at the last statement boundary.
+    mark: StatementMark,
+}
+
+/// Sizes of a transaction's node bookkeeping at a statement boundary.
+#[derive(Debug, Clone, Copy, Default)]
+struct StatementMark {
+    created_nodes: usize,
+    label_additions: usize,
+    label_removals: usize,
+    max_created_external_id: ExternalId,
 }
 
 impl<'a> WriteTxn<'a> {
@@ -982,12 +998,46 @@ impl<'a> WriteTxn<'a> {
             .collect()
     }
 
+    /// Statement boundary: everything written so far stays in the transaction even if a
+    /// later statement is aborted with [`WriteTxn::abort_statement`].
+    pub fn end_statement(&mut self) {
+        let statement = std::mem::take(&mut self.memtable);
+        self.sealed.absorb(statement);
+        self.mark = StatementMark {
+            created_nodes: self.created_nodes.len(),
+            label_additions: self.pending_label_additions.len(),
+            label_removals: self.pending_label_removals.len(),
+            max_created_external_id: self.max_created_external_id,
+        };
+    }
+
+    /// Discards everything written since the last statement boundary, so that a statement
+    /// that failed half-way leaves nothing behind in a transaction that is committed later.
+    pub fn abort_statement(&mut self) {
+        self.memtable = MemTable::default();
+        for (external_id, _, _) in self.created_nodes.drain(self.mark.created_nodes..) {
+            self.created_external_ids.remove(&external_id);
+        }
+        self.pending_label_additions
+            .truncate(self.mark.label_additions);
+        self.pending_label_removals
+            .truncate(self.mark.label_removals);
+        self.max_created_external_id = self.mark.max_created_external_id;
+    }
+
     // T203: HNSW Support
     pub fn set_vector(&mut self, id: InternalNodeId, vector: Vec<f32>) -> Result<()> {
         self.engine.insert_vector(id, vector)
     }
 
-    pub fn commit(self) -> Result<()> {
+    pub fn commit(mut self) -> Result<()> {
+        // Earlier statements first, then whatever was written after the last boundary.
+        if !self.sealed.is_empty() {
+            let last = std::mem::take(&mut self.memtable);
+            self.sealed.absorb(last);
+            self.memtable = std::mem::take(&mut self.sealed);
+        }
+
         // Extract property data before freezing (since freeze consumes memtable)
         let node_properties = self.memtable.node_properties_for_wal();
         let edge_properties = self.memtable.edge_properties_for_wal();
